@@ -199,7 +199,7 @@ Section Proofs.
     /\ count_lt ts d <= length ts.
   Proof.
     induction ts as [|x r IH]; intros d Hs.
-    - split; [intros i t H; inversion H|]. split; [intros [|i] t _ H; discriminate|]. simpl. lia.
+    - unfold count_lt. simpl. split; [intros i t H; lia|]. split; [intros [|i] t _ H; discriminate|]. lia.
     - destruct (IH d (sorted_tail x r Hs)) as [IH1 [IH2 IH3]]. rewrite count_lt_cons.
       destruct (Qltb x d) eqn:E.
       + apply Qltb_lt in E. split; [|split].
@@ -289,7 +289,7 @@ Section Proofs.
       assert (H2 : (tm <= tk)%Q) by (apply (sorted_nth_le (depths_of t) (j + m) (S (j + m))); try assumption; lia).
       assert (Htm : (tj == tm)%Q).
       { apply Qle_antisym; [exact H1|]. rewrite Heq. exact H2. }
-      destruct (IH j tj pj Hj Hpj tm eq_refl Htm) as [pm [Hpm Hveq]].
+      destruct (IH j tj pj Hj Hpj tm Em Htm) as [pm [Hpm Hveq]].
       destruct (leg_between t (j + m) tm tk Em Hk) as [v Hleg].
       destruct (locations_step collar _ _ _ _ _ Hpm Hleg) as [pk [Hpk Hstep]].
       exists pk. split; [exact Hpk|].
@@ -362,11 +362,10 @@ Section Proofs.
     intros [Hne Hs]. destruct (augment_shape s Hne) as [a [Ha [Hlen Hd]]].
     unfold desurvey.
     destruct (locations_zero collar (legs dir (augment s))) as [p0 [Hp0 Hv0]].
-    destruct (desurvey_on_station collar (augment s) 0 0%Q p0) as [p [Hp Hv]].
-    - rewrite Hd. exact Hs.
-    - rewrite Hlen. destruct s; [contradiction|simpl; lia].
-    - rewrite Hd. reflexivity.
-    - exact Hp0.
-    - exists p. split; [exact Hp|]. eapply veq_trans; eassumption.
+    assert (H1 : sortedQ (depths_of (augment s))) by (rewrite Hd; exact Hs).
+    assert (H2 : 2 <= length (augment s)) by (rewrite Hlen; destruct s; [contradiction|simpl; lia]).
+    assert (H3 : nth_error (depths_of (augment s)) 0 = Some 0%Q) by (rewrite Hd; reflexivity).
+    destruct (desurvey_on_station collar (augment s) 0 0%Q p0 H1 H2 H3 Hp0) as [p [Hp Hv]].
+    exists p. split; [exact Hp|]. eapply veq_trans; eassumption.
   Qed.
 End Proofs.
